@@ -136,9 +136,14 @@ class PoyntingFluxDetector(Detector):
         )
         if can_determine_axis:
             if self.keep_all_components:
+                # face_area() keeps the normal axis at size one, so the three per-axis arrays have
+                # different shapes; broadcast them to the detector shape before stacking.
                 weights = jnp.stack(
                     [
-                        _resolve_face_area_weights(self._config, self.grid_slice_tuple, axis, self.dtype)
+                        jnp.broadcast_to(
+                            _resolve_face_area_weights(self._config, self.grid_slice_tuple, axis, self.dtype),
+                            self.grid_shape,
+                        )
                         for axis in range(3)
                     ]
                 )
@@ -351,7 +356,13 @@ class PhasorPoyntingFluxDetector(PhasorDetector):
         real_dtype = jnp.float64 if self.dtype == jnp.complex128 else jnp.float32
         if self.keep_all_components:
             weights = jnp.stack(
-                [_resolve_face_area_weights(self._config, self.grid_slice_tuple, axis, real_dtype) for axis in range(3)]
+                [
+                    jnp.broadcast_to(
+                        _resolve_face_area_weights(self._config, self.grid_slice_tuple, axis, real_dtype),
+                        self.grid_shape,
+                    )
+                    for axis in range(3)
+                ]
             )
         else:
             weights = _resolve_face_area_weights(self._config, self.grid_slice_tuple, self.propagation_axis, real_dtype)
